@@ -336,7 +336,7 @@ func (client *client) writeLoop() {
 			switch p := packet.(type) {
 			case *packets.Publish:
 				if client.version == packets.Version5 {
-					if client.opts.ClientTopicAliasMax > 0 {
+					if client.opts.ClientTopicAliasMax > 0 && client.aliasFits(p) {
 						// use alias if exist
 						if alias, ok := client.topicAliasManager.Check(p); ok {
 							p.TopicName = []byte{}
@@ -841,6 +841,15 @@ func (client *client) internalClose() {
 	verifTrace(client.server, "closed", "conn", verifConn(client), "cid", client.opts.ClientID)
 	close(client.closed)
 
+}
+
+// aliasFits reports whether the PUBLISH still respects the client's Maximum Packet Size when a Topic Alias is used:
+// in the worst case the topic name stays, the property adds 3 bytes and the Remaining Length field grows by one.
+func (client *client) aliasFits(p *packets.Publish) bool {
+	if client.opts.ClientMaxPacketSize == 0 {
+		return true
+	}
+	return gmqtt.MessageFromPublish(p).TotalBytes(packets.Version5)+4 <= client.opts.ClientMaxPacketSize
 }
 
 func (client *client) checkMaxPacketSize(msg *gmqtt.Message) (valid bool) {
